@@ -44,154 +44,206 @@ func streamC15(r *hx.Rng) {
 			if ci%2 == 1 {
 				opts = append(opts, lazyproto.WithBufferFilterFunc(func(c int) int { return c / 2 }))
 			}
-			dec, err := lazyproto.NewDecoder(d.toGo(), opts...)
-			if err != nil {
-				continue
+			concRun(r, cf.g, cf.procs, cf.iters, fast, lv, d, opts, false)
+		}
+	}
+}
+
+// shared between all goroutines of the nested-heavy runs (callers keep path slices in package variables): they
+// must come back unchanged
+var sharedPaths = [][]int{{-3, 1}, {3, 2}, {3, -2}, {-3, -2}, {1}}
+var heavyOps = []aop{
+	{typ: 'N', path: []int{}, t: 3, inner: 1, kind: "uint64", slice: true},
+	{typ: 'N', path: []int{}, t: 3, inner: 2, kind: "string", slice: false},
+	{typ: 'F', path: sharedPaths[0], kind: "uint64", slice: true},
+	{typ: 'F', path: sharedPaths[1], kind: "string", slice: true},
+	{typ: 'F', path: sharedPaths[2], kind: "bytes", slice: true},
+	{typ: 'F', path: sharedPaths[3], kind: "bytes", slice: false},
+	{typ: 'F', path: sharedPaths[4], kind: "uint64", slice: false},
+}
+
+// nested-heavy runs: a repeated nested message with up to nine occurrences, read through NestedResults (so that a
+// parent holds more nested results than any max-buffer setting keeps) and through multi-element paths
+func streamC15Nested(r *hx.Rng) {
+	lv := &level{tags: []int{1, 3}, roles: map[int]int{1: roleVarint, 3: roleNested}, sub: map[int]*level{
+		3: {tags: []int{1, 2}, roles: map[int]int{1: roleVarint, 2: roleString}, sub: map[int]*level{}}}}
+	d := &def{keys: []int{1, 3, -3}, sub: map[int]*def{3: {keys: []int{1, 2, -2}, sub: map[int]*def{}}}}
+	iters := 1200
+	if thorough {
+		iters = 4000
+	}
+	want := fmt.Sprint(sharedPaths)
+	for _, mb := range []int{1, 2, 0} {
+		for _, fast := range []bool{false, true} {
+			opts := []lazyproto.Option{lazyproto.WithMaxBufferSize(mb)}
+			if fast {
+				opts = append(opts, lazyproto.WithMode(csproto.DecoderModeFast))
 			}
-			// per goroutine: inputs, ops and the expected observations, prepared single-threaded
-			type plan struct {
-				inputs [][]byte
-				ops    [][]aop
-				want   [][]string
-			}
-			plans := make([]plan, cf.g)
-			for g := range plans {
-				for k := 0; k < 6; k++ {
-					in := encodeAll(randMessage(r, lv))
-					if len(in) == 0 {
-						in = []byte{0x08, byte(g)}
-					}
-					ops := genOps(r, d, lv, 4)
-					var fops []aop
-					for _, o := range ops {
-						if o.typ == 'F' || (o.typ == 'N' && len(o.path) == 0) || (o.typ == 'R' && len(o.path) == 0) {
-							fops = append(fops, o)
-						}
-					}
-					res, tok, closer := decodeBoth("fn", false, d, in)
-					var want []string
-					for _, o := range fops {
-						if tok == "ok" {
-							want = append(want, observe(res, o))
-						} else {
-							want = append(want, tok)
-						}
-					}
-					closer()
-					plans[g].inputs = append(plans[g].inputs, in)
-					plans[g].ops = append(plans[g].ops, fops)
-					plans[g].want = append(plans[g].want, want)
-				}
-			}
-			old := runtime.GOMAXPROCS(cf.procs)
-			var seq uint64
-			var mu sync.Mutex
-			var logs []logged
-			var bad []string
-			const logLimit = 400
-			var wg sync.WaitGroup
-			for g := 0; g < cf.g; g++ {
-				wg.Add(1)
-				go func(g int) {
-					defer wg.Done()
-					defer func() {
-						if x := recover(); x != nil {
-							mu.Lock()
-							bad = append(bad, fmt.Sprintf("goroutine %d panicked: %v", g, x))
-							mu.Unlock()
-						}
-					}()
-					pl := plans[g]
-					var mine []logged
-					for it := 0; it < cf.iters; it++ {
-						k := (it + g) % len(pl.inputs)
-						s0 := atomic.AddUint64(&seq, 1)
-						res, err := dec.Decode(pl.inputs[k])
-						tok := "ok"
-						if err != nil {
-							tok = "err"
-						} else if res == nil {
-							tok = "nil"
-						}
-						if s0 < logLimit {
-							mine = append(mine, logged{s0, g, fmt.Sprintf("D:%d:%s", g, hx.B(pl.inputs[k])), tok})
-						}
-						if it%3 == 0 {
-							runtime.Gosched()
-						}
-						if tok != "ok" {
-							// the single-threaded run must have failed the same way
-							if len(pl.want[k]) > 0 && pl.want[k][0] != tok {
-								mu.Lock()
-								bad = append(bad, fmt.Sprintf("goroutine %d: decode gave %s, alone it gives %s (input %s)", g, tok, pl.want[k][0], hx.B(pl.inputs[k])))
-								mu.Unlock()
-							}
-							continue
-						}
-						for j, o := range pl.ops[k] {
-							s1 := atomic.AddUint64(&seq, 1)
-							out := observe(res, o)
-							if out != pl.want[k][j] {
-								mu.Lock()
-								bad = append(bad, fmt.Sprintf("goroutine %d read %s for %s, alone it reads %s (input %s)", g, out, o.token(), pl.want[k][j], hx.B(pl.inputs[k])))
-								mu.Unlock()
-							}
-							if s1 < logLimit {
-								var t string
-								switch o.typ {
-								case 'F':
-									t = fmt.Sprintf("F:%d:%s:%s:%s", g, pathStr(o.path), o.kind, sv(o.slice))
-								case 'N':
-									t = fmt.Sprintf("N:%d:%d:%d:%s:%s", g, o.t, o.inner, o.kind, sv(o.slice))
-								default:
-									t = fmt.Sprintf("R:%d", g)
-								}
-								mine = append(mine, logged{s1, g, t, out})
-							}
-							if j%2 == 0 {
-								runtime.Gosched()
-							}
-						}
-						s2 := atomic.AddUint64(&seq, 1)
-						_ = res.Close()
-						if s2 < logLimit {
-							mine = append(mine, logged{s2, g, fmt.Sprintf("C:%d", g), "ok"})
-						}
-					}
-					mu.Lock()
-					logs = append(logs, mine...)
-					mu.Unlock()
-				}(g)
-			}
-			wg.Wait()
-			runtime.GOMAXPROCS(old)
-			sink.OracleN += cf.g * cf.iters
-			sink.Count(fmt.Sprintf("conc:g=%d,procs=%d,fast=%v", cf.g, cf.procs, fast))
-			for i, b := range bad {
-				if i < 5 {
-					fail("a goroutine sharing a lazy Decoder observed something other than its own input's values", fmt.Sprintf("def=%s g=%d procs=%d fast=%v", d, cf.g, cf.procs, fast), "", b, "conc-isolation")
-				}
-			}
-			// replay the logged prefix of the schedule on the pool state machine.  The log order is the
-			// order in which operations STARTED; a goroutine's own operations are in program order, which
-			// is all the model's observations depend on (C15_schedule_independence).
-			sort.Slice(logs, func(i, j int) bool { return logs[i].seq < logs[j].seq })
-			// keep only complete per-goroutine prefixes: drop goroutines whose first logged op is not a decode
-			started := map[int]bool{}
-			var toks, outs []string
-			for _, l := range logs {
-				if strings.HasPrefix(l.tok, "D:") {
-					started[l.g] = true
-				}
-				if !started[l.g] {
-					continue
-				}
-				toks = append(toks, l.tok)
-				outs = append(outs, l.out)
-			}
-			if len(toks) > 0 {
-				sink.Add("schedules", fmt.Sprintf("P 1 %s %s", d, strings.Join(toks, " ")), strings.Join(outs, " "), true)
+			concRun(r, 16, 16, iters, fast, lv, d, opts, true)
+			sink.OracleN++
+			if got := fmt.Sprint(sharedPaths); got != want {
+				fail("FieldData(path...) modified the caller's path slice (shared between goroutines)", fmt.Sprintf("def=%s maxbuf=%d fast=%v", d, mb, fast), want, got, "conc-path-mutated")
+				return
 			}
 		}
+	}
+}
+
+func concRun(r *hx.Rng, cfg, cfprocs, cfiters int, fast bool, lv *level, d *def, opts []lazyproto.Option, heavy bool) {
+	cf := struct{ g, procs, iters int }{cfg, cfprocs, cfiters}
+	dec, err := lazyproto.NewDecoder(d.toGo(), opts...)
+	if err != nil {
+		return
+	}
+	// per goroutine: inputs, ops and the expected observations, prepared single-threaded
+	type plan struct {
+		inputs [][]byte
+		ops    [][]aop
+		want   [][]string
+	}
+	plans := make([]plan, cf.g)
+	for g := range plans {
+		for k := 0; k < 6; k++ {
+			ns := randMessage(r, lv)
+			if heavy {
+				ns = append(append(ns, randMessage(r, lv)...), randMessage(r, lv)...) // up to 9 occurrences of a nested field
+			}
+			in := encodeAll(ns)
+			if len(in) == 0 {
+				in = []byte{0x08, byte(g)}
+			}
+			ops := genOps(r, d, lv, 4)
+			if heavy {
+				ops = append(ops, heavyOps...)
+			}
+			var fops []aop
+			for _, o := range ops {
+				if o.typ == 'F' || (o.typ == 'N' && len(o.path) == 0) || (o.typ == 'R' && len(o.path) == 0) {
+					fops = append(fops, o)
+				}
+			}
+			res, tok, closer := decodeBoth("fn", false, d, in)
+			var want []string
+			for _, o := range fops {
+				if tok == "ok" {
+					want = append(want, observe(res, o))
+				} else {
+					want = append(want, tok)
+				}
+			}
+			closer()
+			plans[g].inputs = append(plans[g].inputs, in)
+			plans[g].ops = append(plans[g].ops, fops)
+			plans[g].want = append(plans[g].want, want)
+		}
+	}
+	old := runtime.GOMAXPROCS(cf.procs)
+	var seq uint64
+	var mu sync.Mutex
+	var logs []logged
+	var bad []string
+	const logLimit = 400
+	var wg sync.WaitGroup
+	for g := 0; g < cf.g; g++ {
+		wg.Add(1)
+		go func(g int) {
+			defer wg.Done()
+			defer func() {
+				if x := recover(); x != nil {
+					mu.Lock()
+					bad = append(bad, fmt.Sprintf("goroutine %d panicked: %v", g, x))
+					mu.Unlock()
+				}
+			}()
+			pl := plans[g]
+			var mine []logged
+			for it := 0; it < cf.iters; it++ {
+				k := (it + g) % len(pl.inputs)
+				s0 := atomic.AddUint64(&seq, 1)
+				res, err := dec.Decode(pl.inputs[k])
+				tok := "ok"
+				if err != nil {
+					tok = "err"
+				} else if res == nil {
+					tok = "nil"
+				}
+				if s0 < logLimit {
+					mine = append(mine, logged{s0, g, fmt.Sprintf("D:%d:%s", g, hx.B(pl.inputs[k])), tok})
+				}
+				if it%3 == 0 {
+					runtime.Gosched()
+				}
+				if tok != "ok" {
+					// the single-threaded run must have failed the same way
+					if len(pl.want[k]) > 0 && pl.want[k][0] != tok {
+						mu.Lock()
+						bad = append(bad, fmt.Sprintf("goroutine %d: decode gave %s, alone it gives %s (input %s)", g, tok, pl.want[k][0], hx.B(pl.inputs[k])))
+						mu.Unlock()
+					}
+					continue
+				}
+				for j, o := range pl.ops[k] {
+					s1 := atomic.AddUint64(&seq, 1)
+					out := observe(res, o)
+					if out != pl.want[k][j] {
+						mu.Lock()
+						bad = append(bad, fmt.Sprintf("goroutine %d read %s for %s, alone it reads %s (input %s)", g, out, o.token(), pl.want[k][j], hx.B(pl.inputs[k])))
+						mu.Unlock()
+					}
+					if s1 < logLimit {
+						var t string
+						switch o.typ {
+						case 'F':
+							t = fmt.Sprintf("F:%d:%s:%s:%s", g, pathStr(o.path), o.kind, sv(o.slice))
+						case 'N':
+							t = fmt.Sprintf("N:%d:%d:%d:%s:%s", g, o.t, o.inner, o.kind, sv(o.slice))
+						default:
+							t = fmt.Sprintf("R:%d", g)
+						}
+						mine = append(mine, logged{s1, g, t, out})
+					}
+					if j%2 == 0 {
+						runtime.Gosched()
+					}
+				}
+				s2 := atomic.AddUint64(&seq, 1)
+				_ = res.Close()
+				if s2 < logLimit {
+					mine = append(mine, logged{s2, g, fmt.Sprintf("C:%d", g), "ok"})
+				}
+			}
+			mu.Lock()
+			logs = append(logs, mine...)
+			mu.Unlock()
+		}(g)
+	}
+	wg.Wait()
+	runtime.GOMAXPROCS(old)
+	sink.OracleN += cf.g * cf.iters
+	sink.Count(fmt.Sprintf("conc:g=%d,procs=%d,fast=%v", cf.g, cf.procs, fast))
+	for i, b := range bad {
+		if i < 5 {
+			fail("a goroutine sharing a lazy Decoder observed something other than its own input's values", fmt.Sprintf("def=%s g=%d procs=%d fast=%v", d, cf.g, cf.procs, fast), "", b, "conc-isolation")
+		}
+	}
+	// replay the logged prefix of the schedule on the pool state machine.  The log order is the
+	// order in which operations STARTED; a goroutine's own operations are in program order, which
+	// is all the model's observations depend on (C15_schedule_independence).
+	sort.Slice(logs, func(i, j int) bool { return logs[i].seq < logs[j].seq })
+	// keep only complete per-goroutine prefixes: drop goroutines whose first logged op is not a decode
+	started := map[int]bool{}
+	var toks, outs []string
+	for _, l := range logs {
+		if strings.HasPrefix(l.tok, "D:") {
+			started[l.g] = true
+		}
+		if !started[l.g] {
+			continue
+		}
+		toks = append(toks, l.tok)
+		outs = append(outs, l.out)
+	}
+	if len(toks) > 0 {
+		sink.Add("schedules", fmt.Sprintf("P 1 %s %s", d, strings.Join(toks, " ")), strings.Join(outs, " "), true)
 	}
 }
